@@ -8,7 +8,11 @@
 #[verifier::reject_recursive_types(A)]
 pub struct ExBTreeIntoIter<K, V, A: core::alloc::Allocator + Clone>(std::collections::btree_map::IntoIter<K, V, A>);
 
-pub assume_specification<K, V, A: core::alloc::Allocator + Clone>[ <std::collections::BTreeMap<K, V, A> as IntoIterator>::into_iter ](m: std::collections::BTreeMap<K, V, A>) -> (r: std::collections::btree_map::IntoIter<K, V, A>)
+// X7 call shim for `map.into_iter()` (an assume_specification on the trait method does not
+// connect the returned iterator's `remaining` with the caller's, so the call goes through
+// this function, whose body is the same expression)
+#[verifier::external_body]
+pub fn vx_btree_into_iter<K, V>(m: std::collections::BTreeMap<K, V>) -> (r: std::collections::btree_map::IntoIter<K, V>)
     ensures
         // every yielded pair is an entry of the map, every entry is yielded, keys are not repeated
         forall|i: int| 0 <= i < vstd::std_specs::iter::IteratorSpec::remaining(&r).len() ==>
@@ -17,7 +21,10 @@ pub assume_specification<K, V, A: core::alloc::Allocator + Clone>[ <std::collect
         forall|k: K| m@.contains_key(k) ==> exists|i: int| 0 <= i < vstd::std_specs::iter::IteratorSpec::remaining(&r).len()
             && #[trigger] vstd::std_specs::iter::IteratorSpec::remaining(&r)[i].0 == k,
         forall|i: int, j: int| 0 <= i < j < vstd::std_specs::iter::IteratorSpec::remaining(&r).len() ==>
-            vstd::std_specs::iter::IteratorSpec::remaining(&r)[i].0 != vstd::std_specs::iter::IteratorSpec::remaining(&r)[j].0;
+            vstd::std_specs::iter::IteratorSpec::remaining(&r)[i].0 != vstd::std_specs::iter::IteratorSpec::remaining(&r)[j].0,
+{
+    m.into_iter()
+}
 
 // Iterator laws of btree_map::IntoIter (TRUSTED AXIOM; see prelude/chars.rs for why)
 pub broadcast axiom fn axiom_btree_into_iter_laws<K, V, A: core::alloc::Allocator + Clone>(e: std::collections::btree_map::IntoIter<K, V, A>)
